@@ -253,6 +253,34 @@ impl SwiftField for Field54ReceiverCorrespondent {
         })
     }
 
+    fn parse_with_variant(
+        value: &str,
+        variant: Option<&str>,
+        _field_tag: Option<&str>,
+    ) -> crate::Result<Self>
+    where
+        Self: Sized,
+    {
+        match variant {
+            Some("A") => {
+                let field = Field54A::parse(value)?;
+                Ok(Field54ReceiverCorrespondent::A(field))
+            }
+            Some("B") => {
+                let field = Field54B::parse(value)?;
+                Ok(Field54ReceiverCorrespondent::B(field))
+            }
+            Some("D") => {
+                let field = Field54D::parse(value)?;
+                Ok(Field54ReceiverCorrespondent::D(field))
+            }
+            _ => {
+                // No or unknown variant, fall back to default parse behavior
+                Self::parse(value)
+            }
+        }
+    }
+
     fn to_swift_string(&self) -> String {
         match self {
             Field54ReceiverCorrespondent::A(field) => field.to_swift_string(),
